@@ -505,6 +505,7 @@ func (iter *runsInnerIterator[T]) Next() (T, bool) {
 		iter.parent = nil
 		return zero, false
 	}
+	iter.prev = item
 	return iter.parent.inner.Next()
 }
 
